@@ -1224,11 +1224,13 @@ func (g *schemaGenerator) generateEnumType(t *schemas.Type, scope nameScope) (co
 
 	if len(t.Type) == 1 {
 		var err error
+		// The carrier of an integer enum is never sized: the value table below holds Go ints, and the generated
+		// reflect.DeepEqual would tell an int8 or int64 from every one of them.
 		if enumType, err = codegen.PrimitiveTypeFromJSONSchemaType(
 			t.Type[0],
 			t.Format,
 			false,
-			g.config.MinSizedInts,
+			false,
 			&t.Minimum,
 			&t.Maximum,
 			&t.ExclusiveMinimum,
